@@ -67,6 +67,22 @@ func (n *c9Node) build(asArg bool) any {
 				m[k] = n.Args[k].snippet()
 			}
 			targs = append(targs, m)
+			if n.ArgStyle == "args" && len(names)%2 == 0 {
+				// the bindings are those of the T call: what the caller does with its map afterwards (rendering is lazy) must not show
+				t := snippet.T(n.Text, targs...)
+				for _, k := range names {
+					m[k] = snippet.Block("REBOUND-AFTER-THE-CALL")
+				}
+				if len(names) > 0 {
+					delete(m, names[0])
+				}
+				for _, extra := range []string{"a", "x", "name", "T", "Type", "zz"} {
+					if _, bound := n.Args[extra]; !bound {
+						m[extra] = snippet.Block("ADDED-AFTER-THE-CALL")
+					}
+				}
+				return t
+			}
 		} else {
 			for i, k := range names {
 				a := n.Args[k]
